@@ -255,7 +255,7 @@ func init() {
 		Stubs: []string{"registry look-ups (ExtensionForKey, AllAddonDefs, AllRegimeDefs, currency.Get, RegimeDefFor): native import; with a symbolic key the path forks over the registered keys of that length and 'none'", "cbc.Key.Validate on concrete keys: native call", "published files data/addons|regimes|catalogues|currency/*.json read at run time as the oracle",
 			"github.com/invopop/validation: model of its reflective struct walker and value dispatcher (engine/interp/validation.go); govalidator.IsURL natively on concrete strings", "normalisation (reflection-driven tax.Normalize) is skipped: the skeleton invoice is built in normal form and calculated with bill.calculate"},
 		Bounds: map[string][]string{
-			"quick":    {"every registered extension key with <= 40 listed codes; candidate value: every ASCII string of 1..3 bytes (symbolic)", "combo keys: 3 document regimes x 4 country overrides x 3 categories x 4 rate keys", "invoice references: a valid calculated one-line ES or FR invoice in which one reference is replaced: currency = every three capital letters (symbolic), regime country = every two capital letters (symbolic), tag from the pool of all published tags of 8 regimes/addons plus an undefined one, addon key from all published keys plus two undefined ones, 5 categories, 6 rate keys"},
+			"quick":    {"every registered extension key with <= 40 listed codes; candidate value: every ASCII string of 1..3 bytes (symbolic)", "derived keys: every registered extension key with '+zz' or '-zz' appended or its last character dropped, with a value the base key allows: defined / accepted only if that very key is published", "combo keys: 3 document regimes x 4 country overrides x 3 categories x 4 rate keys", "invoice references: a valid calculated one-line ES or FR invoice in which one reference is replaced: currency = every three capital letters (symbolic), regime country = every two capital letters (symbolic), tag from the pool of all published tags of 8 regimes/addons plus an undefined one, addon key from all published keys plus two undefined ones, 5 categories, 6 rate keys"},
 			"thorough": {"keys with <= 300 listed codes"},
 		},
 		Outside:     []string{"reference positions other than those listed (identities, inboxes, units, payment means keys, scenario codes), document types other than invoices", "lower-case or longer currency / country candidates", "values longer than 3 bytes", "completeness (a defined reference being accepted) beyond the unchanged skeleton"},
